@@ -15,14 +15,15 @@ from ..runner import Part, split_known
 
 RULE = ("Deterministic grids, no randomness: (grid) a mirror-symmetric grid of 2001 probabilities in [5e-4, 1-5e-4] "
         "(1000 equidistant values below 0.5, 0.5 itself, and the exact floats 1-a, plus 10 values within 1e-7 of the zero crossing 0.5) x degrees of freedom 1..1000 and "
-        "{2000, 1e4, 1e6}; quick evaluates the full grid for dof<=60 and the three large dof and every 8th probability "
+        "{2000, 1e4, 1e6}; quick evaluates the full grid for dof<=60 and the three large dof and every 4th probability "
         "(offset by seed) for dof 61..1000, thorough evaluates everything. Each (function, dof, probability) is one case: "
         "value compared with scipy.stats isf, monotone along the grid, Normal/Student mirror pairs symmetric, "
         "NormalDistribution(Normal(a)) = 1-a. (ndist) x in [-40,40] on a regular grid plus the branch points of the "
         "implementation, one case per x. (scan) monotonicity/finiteness blocks: one case = one (function, dof, tail, "
         "range) block of 100-2001 ordered probabilities, log-spaced tail probabilities from 1e-12 to 5e-4 in both tails, "
-        "dense central blocks (thorough), and narrow blocks around the probability where Chi_square switches between its "
-        "two approximations; every block counts once. (tails, ndist_random) Hypothesis: pairs of probabilities in "
+        "micro blocks of relative width 3e-4 at 7 tail probabilities per tail (steps so small that numerical noise and "
+        "jumps of the implementation show), dense central blocks (thorough), and narrow blocks around the probability "
+        "where Chi_square switches between its two approximations; every block counts once. (tails, ndist_random) Hypothesis: pairs of probabilities in "
         "[1e-12, 1-1e-12] (log-uniform tails, arbitrary closeness) with their exact mirrors, dof biased to small values. "
         "Every case is non-trivial (each evaluates gama and an independent reference); distinct by sha1 of the case.")
 ASSUMPTIONS = [
@@ -30,7 +31,9 @@ ASSUMPTIONS = [
     "two-term series around the zero crossing (scipy's t.isf is only good to 3e-8 absolute there)",
     "accuracy bound |gama - ref| <= rel*|ref| + 1e-9 with rel = 1e-6 (normal), 5e-4 (Student), 5e-3 (chi-square), "
     "asserted only for probabilities in [5e-4, 1-5e-4]",
-    "monotone = non-increasing in the probability with a rounding slack of 1e-12*max(1,|value|)",
+    "monotone = no rise visible at the precision the property states for the function: value(a2) <= value(a1) + "
+    "rel*max|value| + 1e-9 for a1 < a2 (numerical noise of the correction step of Normal is ~1e-16/alpha relative, "
+    "so a tighter slack would only measure rounding); the worst rise/slack is reported as <fn>.monotone",
     "symmetry of Normal/Student asserted with the accuracy bound of the function on exact float mirror pairs a, 1-a",
     "NormalDistribution(Normal(a)) = 1-a within 1e-6*|q|*pdf(q) + 1e-9 (the quantile bound mapped through the density); "
     "NormalDistribution(x) = cdf(x) within 1e-6*cdf(x) + 1e-9, density within 1e-6*pdf(x) + 1e-9",
@@ -326,7 +329,7 @@ GRID_WORKERS = 8
 def run_grid(tier, seed, stats, known):
     k, base = worker_of(seed, "grid")
     grid = alpha_grid()
-    sub = np.unique(np.concatenate([grid[(base % 8)::8], grid[[0, 1000, 2000]], edge_points()]))
+    sub = np.unique(np.concatenate([grid[(base % 4)::4], grid[[0, 1000, 2000]], edge_points()]))
     grid = np.unique(np.concatenate([grid, edge_points()]))
     jobs = []               # (fn, dof, alphas)
     if k == 0:
@@ -593,6 +596,6 @@ PARTS = [
     Part("grid", custom=run_grid, workers=GRID_WORKERS, n={"quick": 1, "thorough": 1}),
     Part("ndist", custom=run_ndist, n={"quick": 1, "thorough": 1}),
     Part("scan", custom=run_scan, workers=SCAN_WORKERS, n={"quick": 1, "thorough": 1}),
-    Part("tails", strategy=tails_strategy, oracle=tails_oracle, n={"quick": 4000, "thorough": 120000}),
-    Part("ndist_random", strategy=ndist_strategy, oracle=ndist_oracle, n={"quick": 1000, "thorough": 20000}),
+    Part("tails", strategy=tails_strategy, oracle=tails_oracle, n={"quick": 10000, "thorough": 120000}),
+    Part("ndist_random", strategy=ndist_strategy, oracle=ndist_oracle, n={"quick": 3000, "thorough": 20000}),
 ]
